@@ -410,7 +410,12 @@ pub mod support {
     impl Render for &str { fn render(&self) -> String { format!("s{}", enc(self)) } }
     impl Render for &String { fn render(&self) -> String { format!("s{}", enc(self)) } }
     pub fn pos_of(names: &[&str], n: &str) -> usize { names.iter().position(|x| *x == n).unwrap() }
-    pub fn made(owner: usize) { MADE[owner].fetch_add(1, Ordering::SeqCst); }
+    pub fn made(owner: usize) {
+        MADE[owner].fetch_add(1, Ordering::SeqCst);
+        if let Some(ms) = std::env::var("HX_SLOW_ARGS").ok().and_then(|s| s.parse::<u64>().ok()) {
+            std::thread::sleep(std::time::Duration::from_millis(ms));
+        }
+    }
     pub fn enter(id: usize) { LOG.lock().unwrap().push(format!("E{id}")); }
     pub fn call(id: usize, v: Option<String>) {
         LOG.lock().unwrap().push(match v { Some(v) => format!("C{id}={v}"), None => format!("C{id}") });
@@ -486,6 +491,11 @@ pub mod support {
             "main_threads_cfg" => {
                 let t: Vec<usize> = std::env::var("HX_THREADS").unwrap_or_default().split(',').filter(|s| !s.is_empty()).map(|s| s.parse().unwrap()).collect();
                 divan::Divan::from_args().threads(t).main()
+            }
+            "concurrent_runs" => {
+                let k: usize = std::env::var("HX_K").ok().and_then(|s| s.parse().ok()).unwrap_or(3);
+                let barrier = std::sync::Barrier::new(k);
+                std::thread::scope(|s| { for _ in 0..k { s.spawn(|| { barrier.wait(); divan::Divan::default().test_benches(); }); } });
             }
             "dump" => dump(),
             "optdump" => optdump(),
